@@ -56,6 +56,7 @@ def _case(draw, tier, force_pre_entry=False):
         "nested": prob(draw, 0.0 if force_pre_entry else 0.2),
         "limit_off": draw(st.integers(0, 3)),
         "entry": 0,
+        "exit_ext": prob(draw, 0.35),  # the exit node takes an external input only (reached through the gate's control edge alone)
     }
     if form in ("selfsignal", "chat") or L["acc"]:
         L["nullable"] = False
@@ -87,6 +88,8 @@ def _case(draw, tier, force_pre_entry=False):
         "order": draw(st.lists(st.integers(0, 9), min_size=10, max_size=10)),
         "sched": draw(st.lists(st.integers(0, 5), max_size=30)),
         "caps": draw(st.lists(st.integers(1, 6), min_size=1, max_size=3)),
+        # the same loop with its topology DECLARED by hand (every inferred data edge, optionally the gate -> target pairs)
+        "explicit": draw(st.sampled_from([None, None, "data", "data+gate"])),
     }
 
 
@@ -142,6 +145,23 @@ def check_case(case, ev):
     ctx2 = Ctx()
     g2 = make_graph(ctx2, gspec, "sync")
     _compare("async", L, run_async(g2, vals, **kw), ctx2, env, counts)
+
+    outs_all = [o for n in gspec["nodes"] for o in n.get("outs", [])]
+    if case.get("explicit") and not L.get("nested") and len(outs_all) == len(set(outs_all)):
+        ctxe = Ctx()
+        try:
+            ge = make_graph(ctxe, {**gspec, "explicit": case["explicit"]}, "sync")
+        except Exception as e:  # noqa: BLE001 - declared topologies are validated by their own rules
+            ev.count("explicit_edges_rejected:" + type(e).__name__)
+            ge = None
+        if ge is not None:
+            kwe = _run_kw(L, ge)
+            oe = run_sync(ge, vals, **kwe)
+            if oe.status == "raised" and type(oe.error).__name__ in ("MissingInputError", "ValueError") and "iterations" not in str(oe.error):
+                ev.count("explicit_edges_other_input_contract")
+            else:
+                _compare(f"sync, edges={case['explicit']}", L, oe, ctxe, env, counts)
+                labels.add("explicit_edges:" + case["explicit"])
 
     ctx3 = Ctx()
     g3 = make_graph(ctx3, gspec, "async")
